@@ -12,4 +12,5 @@ INVARIANT NoLeak
 INVARIANT Contiguous
 INVARIANT QueueBounded
 PROPERTY Refines
+VIEW View
 CHECK_DEADLOCK FALSE
